@@ -100,6 +100,8 @@ structure MSt where
   lastLoc : List (Nat × String) := []
   /-- (key, version) a flushing close had to persist: later lookups must deliver that version -/
   persisted : List (Nat × Nat) := []
+  /-- keys whose memory copy was populated by a disk hit (and not written since) -/
+  fromDisk : List Nat := []
   held : Bool := false
   gated : Bool := false
 
@@ -119,6 +121,7 @@ def monitor (cfgF : Fields) (ops : List (Nat × Fields)) : String :=
   let tomb := getD cfgF "tomb" "0" = "1"
   let idHash := getD cfgF "hmode" "id" = "id"
   let lossy := getD cfgF "lossy" "0" = "1"
+  let reins := getNatD cfgF "reins" 0 > 0
   let rec go (st : MSt) (reopened : Bool) : List (Nat × Fields) → Nat → String
     | [], _ => "HOLDS"
     | (ln, f) :: rest, n =>
@@ -150,6 +153,7 @@ def monitor (cfgF : Fields) (ops : List (Nat × Fields)) : String :=
                   if st.ghost.contains k then "removed_value_after_restart_without_tombstone_log"
                   else if (tGet st.truth k).isNone then "removed_value_returned"
                   else if st.big.contains ((tGet st.truth k).getD 0) then "stale_after_oversize_update"
+                  else if reins then "stale_value_returned_with_reinsertion"
                   else "stale_value_returned"
                 some (fail "C01" clause s!"lookup of {k} returned version {rv} from {src}, source of truth is {repr (tGet st.truth k)}")
           | none => none
@@ -297,10 +301,33 @@ def monitor (cfgF : Fields) (ops : List (Nat × Fields)) : String :=
             | _ => st.persisted)
         | "clear" => []
         | _ => st.persisted
-      match lookupFail <|> persistFail <|> hitWrite <|> inMemOnDisk <|> onDiskResident <|> woiInsert <|> woeInsert <|> woiEvict <|> closeFail with
+      -- C12: under write-on-eviction an entry that was loaded from disk is not written again when it is evicted
+      -- (devices without block reclaim: no block is ever marked for imminent reclaim)
+      let evictedKeys : List Nat := (listOf (getD f "ev" "-")).filterMap fun e =>
+        match e.splitOn ":" with
+        | ["evict", ek, _] => ek.toNat?
+        | _ => none
+      let isLookup := op = "get" || op = "evict" || (op = "fetch" && (match parseVal ret with
+        | some (_, _, "outer") => false
+        | _ => true))
+      let rewriteFail : Option String :=
+        if !woi && quiet && !lossy && isLookup && w > 0 && !evictedKeys.isEmpty && evictedKeys.all (fun ek => st.fromDisk.contains ek) then
+          some (fail "C12" "entry_loaded_from_disk_rewritten" s!"{op}: the evicted entries {evictedKeys} were loaded from disk and not modified, yet {w} bytes were written")
+        else none
+      let fromDisk' : List Nat :=
+        let base := st.fromDisk.filter fun x => !evictedKeys.contains x
+        match op with
+        | "get" | "fetch" => (match parseVal ret with
+            | some (_, _, "disk") => k :: base.filter (· ≠ k)
+            | some (_, _, "outer") => base.filter (· ≠ k)
+            | _ => base)
+        | "ins" | "wins" | "rm" => base.filter (· ≠ k)
+        | "clear" | "reopen" => []
+        | _ => base
+      match lookupFail <|> persistFail <|> rewriteFail <|> hitWrite <|> inMemOnDisk <|> onDiskResident <|> woiInsert <|> woeInsert <|> woiEvict <|> closeFail with
       | some s => s
       | none =>
-        go { truth := truth', advice := advice', big := big', prevMem := mem, wild := wild', ghost := ghost', inval := inval', lastLoc := lastLoc', persisted := persisted', held := held', gated := gated' }
+        go { truth := truth', advice := advice', big := big', prevMem := mem, wild := wild', ghost := ghost', inval := inval', lastLoc := lastLoc', persisted := persisted', fromDisk := fromDisk', held := held', gated := gated' }
           (reopened || op = "reopen") rest (n + 1)
   go {} false ops 0
 
